@@ -155,7 +155,7 @@ def correspond_tables(ctx, cases):
     from ..c19_oracle import VEC_ELEMS
     rng = ctx.rng
     meshes = ['tri-delaunay', 'quad-jiggled', 'tet-struct', 'hex-jiggled', 'line-random', 'tri-struct', 'tet-delaunay']
-    for c in range(ctx.n(10, 60)):
+    for c in range(ctx.n(6, 60)):
         mname = meshes[c % len(meshes)]
         fam = O1.FAMILY[mname]
         m = O1.make_mesh(mname, rng.randrange(10 ** 6))
@@ -181,6 +181,8 @@ def correspond_tables(ctx, cases):
             for n in range(len(ls)):
                 cases.append((f'(CSplitC {gs} {cn} {lst} {cnat(n)})', f'(ONats {cnats(ix[n].tolist())})', ('splitc', len(ls) >= 2, info)))
                 # the component's own Dofs table (what split_bases builds)
+                if ctx.quick() and n >= 1:
+                    continue
                 cb = Dofs(m, elem.elems[n])
                 cases.append((f'(CDofs {gs} {cn} {cnats(ls[n])})', f'(ONatss {clist([cnats(r) for r in cb.element_dofs.tolist()])})',
                               ('dofs', True, info)))
@@ -203,7 +205,7 @@ def correspond_tables(ctx, cases):
                               ('splitv', elem.dim >= 2, info)))
     # _deduce_bfun on synthetic layouts (components with very different layouts), via a duck-typed element list
     from skfem.element import ElementComposite
-    for c in range(ctx.n(10, 40)):
+    for c in range(ctx.n(6, 40)):
         M = rng.randint(1, 4)
         ref = [rng.randint(1, 4), rng.randint(0, 3), rng.randint(0, 3), 1]
         ls = [[rng.randint(0, 2) for _ in range(4)] for _ in range(M)]
@@ -244,7 +246,7 @@ def correspond(ctx, gen_ok):
     def wfield(nt, nq):
         wt = [[rng.randint(-2, 3) for _ in range(nq)] for _ in range(nt)]
         return wt, DiscreteField(np.array(wt, dtype=float).reshape(nt, nq))
-    for c in range(ctx.n(28, 200)):
+    for c in range(ctx.n(16, 200)):
         Nu, Nv = rng.randint(1, 4), rng.randint(1, 4)
         if c < 10:
             while Nv == Nu:
@@ -326,9 +328,9 @@ def correspond(ctx, gen_ok):
                           ('vec', dim >= 2, info)))
             ctx.hist('vector decode', f'{type(elem).__name__}^{dim}')
     # bmat offsets
-    for c in range(ctx.n(12, 40)):
-        n = rng.randint(1, 6)
-        widths = [rng.randint(1, 4) for _ in range(n)]
+    for c in range(ctx.n(8, 40)):
+        n = rng.randint(1, 6) if c >= 2 else 4 + c
+        widths = [rng.randint(1, 4) for _ in range(n)] if c >= 2 else [2, 3, 4, 5, 1][:n]
         m = rng.randint(1, 2)
         heights = [rng.randint(1, 3) for _ in range(m)]
         blocks = [[sp.csr_matrix(np.ones((h, w))) for w in widths] for h in heights]
@@ -345,7 +347,7 @@ def correspond(ctx, gen_ok):
             ctx.fail(BMAT_KEY if n >= 4 else 'bmat-blocks', 'skfem.utils.bmat(...).blocks are not the prefix sums of the block-column widths',
                      dict(info, got=[int(x) for x in M.blocks], expected=want))
     # CompositeBasis of stub bases: N, Nbfun, nelems and the stacked element_dofs; rejected combinations
-    for c in range(ctx.n(10, 40)):
+    for c in range(ctx.n(6, 40)):
         M = rng.randint(1, 3)
         nt, nq = rng.randint(1, 3), rng.randint(1, 2)
         dx = S.random_dx(rng, nt, nq)
@@ -369,7 +371,7 @@ def correspond(ctx, gen_ok):
                       ('cbasis', M >= 2, info)))
     correspond_tables(ctx, cases)
     if gen_ok:
-        ctx.corr('blocks', IMPORTS, 'run', 'cout_eqb', cases, per_file=(34 if ctx.quick() else 25), defs=DEFS, nontrivial=lambda r: r[1])
+        ctx.corr('blocks', IMPORTS, 'run', 'cout_eqb', cases, per_file=(70 if ctx.quick() else 25), defs=DEFS, nontrivial=lambda r: r[1])
         ctx.sample({'kind': 'stub local matrices (input term, implementation output)', 'input': cases[0][0][:500], 'output': cases[0][1][:300]})
 
 
